@@ -48,3 +48,18 @@ pub fn hash<T: Hash + 'static>(value: &T) -> u64 {
     value.hash(&mut s);
     s.finish()
 }
+
+/// The key of a memoized function: the hash of its signature combined with the location of
+/// its definition, so that functions with identical signatures do not share cached results.
+pub const fn fn_key(signature_hash: u64, module_path: &str, line: u32, column: u32) -> u64 {
+    // FNV-1a
+    let mut key = signature_hash ^ 0xcbf29ce484222325;
+    let bytes = module_path.as_bytes();
+    let mut i = 0;
+    while i < bytes.len() {
+        key = (key ^ bytes[i] as u64).wrapping_mul(0x100000001b3);
+        i += 1;
+    }
+    key = (key ^ line as u64).wrapping_mul(0x100000001b3);
+    (key ^ column as u64).wrapping_mul(0x100000001b3)
+}
